@@ -122,6 +122,29 @@ pub fn run_expect(rep: &mut Report, o: &Opts, class: &str, cases: Vec<(CmdS, Vec
     }
 }
 
+/// shapes that must be REJECTED with a given kind (plus the usual model comparison)
+pub fn run_expect_kind(rep: &mut Report, o: &Opts, class: &str, cases: Vec<(CmdS, Vec<Vec<u8>>, clap::error::ErrorKind)>) {
+    let mut reqs = vec![]; let mut impls = vec![];
+    for (cmd, argv, kind) in &cases {
+        if !real_valid(cmd) { rep.notes.push(format!("{class}: shape is not a valid definition: {}", cmd.summary(0))); continue; }
+        let (canon, m, e) = real_parse(cmd, argv);
+        let req = parse_request(cmd, argv);
+        let shown: Vec<String> = argv.iter().map(|a| String::from_utf8_lossy(a).to_string()).collect();
+        match (&m, &e) {
+            (Some(_), _) => rep.oracle_fail(class, &req, &format!("accepted, expected {kind:?}; argv={shown:?}")),
+            (None, Some(e)) => { if e.kind() != *kind { rep.oracle_fail(class, &req, &format!("rejected with {:?}, expected {kind:?}; argv={shown:?}", e.kind())); } }
+            _ => rep.oracle_fail("panic", &req, &canon),
+        }
+        rep.case(&req, true);
+        rep.count(&format!("shape:{class}"));
+        reqs.push(req); impls.push(canon);
+    }
+    if o.driver != "none" {
+        let model = driver_batch(&o.driver, &reqs, 1);
+        for ((req, m), i) in reqs.iter().zip(model.iter()).zip(impls.iter()) { if m != i { rep.disagree("parse", req, m, i); } }
+    }
+}
+
 pub fn bv(v: &[&str]) -> Vec<Vec<u8>> { v.iter().map(|x| x.as_bytes().to_vec()).collect() }
 
 /// the raw occurrences of `id` at the level reached through `path`
